@@ -58,6 +58,8 @@ ASSUMPTIONS = [
     "revert(backups=False) and remove(force=True) are explicit requests to discard the selected paths: nothing is demanded for files inside the selection, a path selects the file or directory that has it now or had it in the basis (selection is by file id), and a selected directory selects what it holds today; everything outside must be kept (byte-identical somewhere in the tree: reverting a selected file back into a directory that a merge had renamed takes the directory, and the unselected files in it, along; files renamed by the user are left out)",
     "a command that raises a BzrError has refused: U must then be intact in place; any other exception is a violation of its own",
     "guard remove_unknown_at_basis_path (reported defect): remove(keep_files=False, force=False) is not run when the selection holds an unknown file whose path the basis still versions (unversioned by a merge or remove --keep, then re-created by the user): the filtered iter_changes does not report it (C10 finding bzr_filter_unversioned_at_removed) and InventoryWorkingTree.remove deletes it; lifted in half of the runs once known_findings.json has an open entry [C12, known-defect, remove_unknown_at_basis_path], or with VERIF_UNGUARDED=1",
+    "guard contents_conflict_THIS (reported defect): after a contents conflict (local edit vs. deletion) the versioned <path>.THIS holds the user's text and nothing else does, but Merge3Merger.write_modified recorded its hash as merge-written, so revert deletes it without backup; by the letter of the property (written by a previous merge) it is not in U; runs that lift the guard (half of them once known_findings.json has an open entry [C12, known-defect, contents_conflict_THIS], or VERIF_UNGUARDED=1) count it and report its loss under that signature.  A further user edit of <path>.THIS puts it into U in every run",
+    "a regular file typed over a versioned symlink or empty versioned directory (kind changed on disk) is user content like any other",
     "only 2a trees (the property's mechanisms - numbered backups, merge-hashes, remove's safety - are the bzr ones); no fault injection here: a failing transform is C13's property (open findings there would resurface under this id)",
     "uncommit: every file below the tree root byte-identical and lstat-identical (mode, size, mtime_ns, inode); control files are not compared",
     "runs execute in-process (ISOLATION=thread): each run builds all branches, trees and the Sim from scratch",
@@ -66,7 +68,7 @@ STEP_CAP = 600000
 ISOLATION = "thread"
 
 # states that run into defects already reported; see ASSUMPTIONS
-GUARDS = ("remove_unknown_at_basis_path",)
+GUARDS = ("remove_unknown_at_basis_path", "contents_conflict_THIS")
 FIXED_REMOVE_UNKNOWN = True  # /repo c7126b4: the guarded territory is explored in every run now
 P_UNGUARDED = float(os.environ.get("VERIF_UNGUARDED", "0") or 0)
 P_LIFT = 0.5  # the state is rare: lift often once the finding is registered
@@ -216,7 +218,7 @@ def gen_branch_ops(rng, side, n, counter, lines, names):
 def generate(rng, tier):
     counter = [10]
     files = sorted(rng.sample(FILES, rng.randint(2, 5)))
-    base = {"files": files, "r1": rng.random() < 0.5}
+    base = {"files": files, "r1": rng.random() < 0.5, "extras": True}
     trunk = initial_side(files)
     names = ["n", "u", "x", "a", "b"]
     o = trunk.copy()
@@ -227,19 +229,38 @@ def generate(rng, tier):
         pside = trunk.copy()
         pops = gen_branch_ops(rng, pside, rng.randint(1, 3), counter, [0, 1, 2, 3, 4, 5], names)
         pre = []
+        this_helpers = []
         for op in pops:
             if op[0] == "edit" and rng.random() < 0.6 and op[1] in trunk.files:
                 counter[0] += 1
                 pre.append(["edit", op[1], op[2] if rng.random() < 0.7 else rng.choice([0, 1, 2]), counter[0]])
+            elif op[0] == "delete" and rng.random() < 0.7 and op[1] in trunk.files:
+                # local edit of a file the merged branch deleted: contents conflict, <path>.THIS
+                counter[0] += 1
+                pre.append(["edit", op[1], rng.choice([0, 1, 2]), counter[0]])
+                this_helpers.append(op[1] + ".THIS")
         previous = {"pre": pre, "ops": pops}
+        if cmd_name in ("revert", "revert", "remove", "merge", "uncommit") and rng.random() < 0.4:
+            # the earlier command was a pull (the basis moves: a contents conflict's <path>.THIS
+            # is then a file the new basis does not know)
+            previous["how"] = "pull"
     # the user's edits: paths are drawn from what may exist; execution skips what does not
     user = []
     pool = sorted(set(trunk.files) | (set(pside.files) if previous else set()))
+    if previous:
+        pool = sorted(set(pool) | set(this_helpers))
+        for q in this_helpers:
+            if rng.random() < 0.6:
+                counter[0] += 1
+                user.append(["edit", q, rng.choice([0, 1, 2]), counter[0]])
     for _ in range(rng.randint(1, 6)):
         counter[0] += 1
         k = counter[0]
-        kind = rng.choice(["edit", "edit", "edit", "new_unknown", "new_added", "rename", "chmod", "collide", "recreate"])
-        if kind == "edit" and pool:
+        kind = rng.choice(["edit", "edit", "edit", "new_unknown", "new_added", "rename", "chmod", "collide", "recreate", "over"])
+        if kind == "over":
+            # the user typed a regular file over a versioned symlink / (empty) directory
+            user.append(["over", rng.choice(["ln", "zd"]), k])
+        elif kind == "edit" and pool:
             user.append(["edit", rng.choice(pool), rng.choice([0, 1, 2, 2, 1, rng.choice([3, 4, 5])]), k])
         elif kind in ("new_unknown", "new_added"):
             d = rng.choice(sorted(trunk.dirs | {""}))
@@ -259,7 +280,7 @@ def generate(rng, tier):
             pool = [p if p != src else src + "-r" for p in pool]
         elif kind == "chmod" and pool:
             user.append(["chmod", rng.choice(pool), True])
-    sel_pool = sorted(set(pool) | set(trunk.dirs) | {op[1] for op in user if op[0] == "new"})
+    sel_pool = sorted(set(pool) | set(trunk.dirs) | {op[1] for op in user if op[0] in ("new", "over")})
     if cmd_name == "revert":
         paths = None if rng.random() < 0.4 else sorted(rng.sample(sel_pool, min(len(sel_pool), rng.randint(1, 3))))
         cmd = {"c": "revert", "paths": paths, "backups": rng.random() < 0.6}
@@ -389,6 +410,10 @@ def execute(sim, plan):
     for p, (fid, lines) in sorted(trunk.files.items()):
         M.write_file(troot, p, b"".join(lines))
         t.add([p], ids=[fid.encode()])
+    if plan["base"].get("extras"):
+        os.symlink("nowhere", os.path.join(troot, "ln"))
+        t.add(["ln"], ids=[b"ln-id"])
+        t.mkdir("zd", b"zd-id")
     M.commit(t, "r0", 0)
     if plan["base"].get("r1"):
         first = sorted(trunk.files)[0]
@@ -416,14 +441,19 @@ def execute(sim, plan):
     root = w._sim_root
     wside = trunk.copy()  # what the user sees (only used to render edits)
     merge_written = set()
+    user_written = set()  # bytes the user typed before the previous merge
     if prev:
         for op in prev["pre"]:
             if wside.ok(op):
                 wside.apply(op)
                 M.write_file(root, op[1], b"".join(wside.files[op[1]][1]))
+                user_written.add(b"".join(wside.files[op[1]][1]))
         before_prev = files_of(root)
         try:
-            M.do_merge(w, p_.last_revision(), p_.branch, "merge3")
+            if prev.get("how") == "pull" and w is t:
+                w.pull(p_.branch)
+            else:
+                M.do_merge(w, p_.last_revision(), p_.branch, "merge3")
         except errors.BzrError as e:
             sim.event("previous-merge-refused", type(e).__name__)
         w = T.reopen(w)
@@ -471,6 +501,15 @@ def execute(sim, plan):
                 renamed.add(op[2])
             except errors.BzrError:
                 continue
+        elif k == "over":
+            if os.path.islink(full):
+                os.unlink(full)
+            elif os.path.isdir(full) and not os.listdir(full):
+                os.rmdir(full)
+            else:
+                continue
+            M.write_file(root, op[1], new_text("user-over-" + op[1], op[2]))
+            cats.add("kind-changed")
         elif k == "chmod":
             if os.path.isfile(full) and not os.path.islink(full):
                 os.chmod(full, 0o755)
@@ -525,6 +564,13 @@ def execute(sim, plan):
         return
     plain_before = {q: (v[0] if c == "uncommit" else v) for q, v in before.items()}
     U = {q: d for q, d in plain_before.items() if d not in basis_texts and d not in merge_written}
+    # guard contents_conflict_THIS (reported defect): <path>.THIS of a contents conflict is the
+    # versioned file that holds the user's text - its ONLY copy - yet the merge recorded its hash
+    # as merge-written, so it is not in U by the letter of the property; lifted runs count it
+    this_only = {}
+    if "contents_conflict_THIS" in plan.get("unguarded", ()):
+        this_only = {q: d for q, d in plain_before.items() if q.endswith(".THIS") and ids.get(q) is not None and d in user_written and q not in U}
+        U.update(this_only)
     sim.event("U", len(U), _h(sorted(U.items())))
     base_texts = trunk.texts()
     other_texts = oside.texts()
@@ -635,6 +681,8 @@ def execute(sim, plan):
                     sim.probe("kept_clean_merge")
                     continue
             kind = "unknown" if ids.get(q) is None else "versioned"
+            if q in this_only:
+                sim.fail("content_lost", ["C12", "known-defect", "contents_conflict_THIS"], "[content_lost, in the territory of contents_conflict_THIS] %s destroyed %r, the only copy of the user's text after a contents conflict\nplan: %s" % (json.dumps(cmd), q, json.dumps(plan, sort_keys=True)))
             if q in risky:
                 sim.fail("content_lost", ["C12", "known-defect", "remove_unknown_at_basis_path"], "[content_lost, in the territory of remove_unknown_at_basis_path] %s deleted the unknown file %r (its path is still versioned in the basis)\nplan: %s" % (json.dumps(cmd), q, json.dumps(plan, sort_keys=True)))
             fail("content_lost", [kind], "%s destroyed the content of %r (%s; not found in any file of the tree afterwards%s)\nfiles before: %r\nfiles after: %r" % (json.dumps(cmd), q, kind, ", nor its clean merge" if c in ("merge", "update", "switch", "pull") else "", sorted(plain_before), sorted(plain_after)))
